@@ -1,5 +1,6 @@
 import Hive.Proofs.ReactiveInst
 import Hive.Proofs.ReactiveVariants
+import Hive.Proofs.ReactiveDir
 import Hive.Gen.C13_Skel
 /-!
 # C13 — reactive subscribers see every change exactly once, in order
@@ -296,6 +297,72 @@ example : (ctxRun (fun _ (n : Nat × Nat) => List.replicate (n.2 % 3) true) {} [
 
 end Variants
 
+/-! ## Directed schedules, the early return of `Apply`, calls without effect -/
+
+/-- **Every answer of a directed case comes from a reachable configuration**: whatever sequence of
+director lines (`go write …`, `go sub …`, `go unsub …`, `release …`, `finish`, …) `drv_c13` is fed, the
+configuration it holds — whose thread statuses and subscription logs it prints, to be compared with
+what the real goroutines did — is reachable in the protocol model, so every theorem above applies to
+those logs. -/
+theorem C13_directed_reachable (o : Obj S N) (f : Dir.Fmt o) (lines : List (List String)) :
+    Reachable o (Dir.cfg (Dir.run o f lines)) :=
+  Dir.good_run o f lines
+
+/-- … for instance: every log a directed Variable case prints is well bracketed, has no callback after
+an `unsubscribe()` return, and is a `(previous,new)` chain from the zero value. -/
+theorem C13_directed_logs_ok (event : Bool) (lines : List (List String)) (c : Nat) :
+    let d := Dir.run Dir.varO (Dir.varFmt event) lines
+    exclusive (d.sh.cbs c).evs = true ∧ noneAfterUnsub (d.sh.cbs c).evs = true ∧
+      (c < d.sh.ncb → chainFrom 0 (notes (d.sh.cbs c).evs) = true) := by
+  intro d
+  have h := C13_directed_reachable Dir.varO (Dir.varFmt event) lines
+  exact ⟨C13_callbacks_exclusive _ h c, C13_none_after_unsubscribe_returned _ h c, fun hc => C13_chain 0 0 h hc⟩
+
+/-- A directed case on the model (it is the first entry of the directed corpus of `harness/c13/dir.go`): three
+subscriptions of the set `{1,2}`, the second invocation of subscription 0 is gated; `Replace({2,3})` stands at that
+gate holding its snapshot `[0,1,2]`; subscription 1 is unsubscribed meanwhile; the gate is opened. -/
+def exDir : Dir.D (setObj [1, 2]) :=
+  let o := setObj [1, 2]
+  let d1 := Dir.spawn o { Dir.D.init o with gates := [(0, 1)] } (.sub true)
+  let d2 := Dir.spawn o (Dir.spawn o d1 (.sub true)) (.sub true)
+  let d3 := Dir.spawn o d2 (.write (.replace [2, 3]))
+  let d4 := Dir.spawn o d3 (.unsub 1)
+  Dir.settle o 200 { d4 with held := d4.held.erase 0 }
+
+/-- … subscription 1 gets nothing after its `unsubscribe()` returned, subscription 2 — behind it in the writer's
+snapshot — still gets the `Replace` (`+{3} -{1}`), everybody has finished. -/
+theorem C13_directed_unsubscribed_in_snapshot_example :
+    (exDir.sh.cbs 1).evs = [.enter ([1, 2], []), .exit, .unsubRet] ∧
+    (exDir.sh.cbs 2).evs = [.enter ([1, 2], []), .exit, .enter ([3], [1]), .exit] ∧
+    exDir.sh.st = [2, 3] ∧ exDir.ths.all Dir.finished = true := by decide
+
+/-- The early return of `Set.Apply` (empty mutations: no lock taken, `Obj.early`) does what the locked
+path would have done with the same argument: nothing — no change, no id consumed. -/
+theorem C13_early_return_is_noop (init s : List Nat) (w : SetOp) (h : (setObj init).early w = true) :
+    (setObj init).upd s w = .quiet false := by
+  cases w with
+  | apply m => simp [setObj] at h; simp [setObj, setUpd, h]
+  | compute g => simp [setObj] at h
+  | replace els => simp [setObj] at h
+  | replaceView g => simp [setObj] at h
+
+/-- A Variable / Event never returns early. -/
+theorem C13_variable_never_early {V : Type} [DecidableEq V] (zero init : V) (w : (varObj V zero init).WOp) :
+    (varObj V zero init).early w = false := rfl
+
+/-- Calls without effect (`Add` of a present element, `Delete` of an absent one — the `idle` lines of the
+sequential differential): the update id is consumed, nobody is notified. -/
+theorem C13_idle_call_quiet (s : List Nat) (x : Nat) :
+    (s.contains x = true → setUpd s (.apply ([x], [])) = .quiet true) ∧
+    (s.contains x = false → setUpd s (.apply ([], [x])) = .quiet true) := by
+  constructor
+  · intro h
+    have hm : x ∈ s := by simpa using h
+    simp [setUpd, Mut.isEmpty, applyMut, hm]
+  · intro h
+    have hm : ¬ x ∈ s := by simpa using h
+    simp [setUpd, Mut.isEmpty, applyMut, hm]
+
 /-! ## Non-vacuity: a concrete schedule, replayed on the model -/
 
 /-- writer `Set(5); Set(7)`, a subscriber `OnUpdate(cb)`, an unsubscriber of subscription 0 -/
@@ -408,7 +475,7 @@ theorem C13_skeleton_set_Replace : skel_set_Replace =
       "call registeredCallback.Invoke", "call registeredCallback.UnlockExecution", "}if", "}for", "return"] := by decide
 
 theorem C13_skeleton_set_apply : skel_set_apply =
-    ["lock s.readableSet.mutex", "defer unlock s.readableSet.mutex", "helper Apply", "call s.uniqueUpdateID.Next",
+    ["lock s.readableSet.mutex", "defer unlock s.readableSet.mutex", "call s.value.Apply", "call s.uniqueUpdateID.Next",
       "call s.updateCallbacks.Values", "return"] := by decide
 
 theorem C13_skeleton_set_replace : skel_set_replace =
@@ -448,7 +515,47 @@ theorem C13_skeleton_list_Range : skel_threadSafeList_Range =
 
 theorem C13_skeleton_list_inner_Values : skel_list_Values = ["func{", "}func", "call l.Range", "return"] := by decide
 
-theorem C13_skeleton_list_inner_Range : skel_list_Range = ["for{", "call element.Next", "}for"] := by decide
+theorem C13_skeleton_list_inner_Range : skel_list_Range = ["helper Front", "for{", "call element.Next", "}for"] := by decide
+
+/-! The links and the length counter behind `Remove` / `PushBack` / the walk (the model's `listed.filter` /
+`listed ++ [c]` / snapshot): `Remove` acts only on an element that is still part of this list, decided inside
+`list.Remove` (that is, under the write lock `threadSafeList.Remove` holds); `remove` unlinks, clears all three
+pointers of the removed element and counts down; `Front` answers from the length counter; `Next` ends at the root
+or at a removed element. -/
+theorem C13_skeleton_list_inner_Remove : skel_list_Remove =
+    ["if{", "}if", "call typedElement.list.Load", "if{", "call l.remove", "}if", "call typedElement.value.Load", "return"] := by
+  decide
+
+theorem C13_skeleton_list_inner_remove : skel_list_remove =
+    ["call e.next.Load", "call e.prev.Load", "call e.prev.Load().next.Store", "call e.prev.Load", "call e.next.Load",
+      "call e.next.Load().prev.Store", "call e.next.Store", "call e.prev.Store", "call e.list.Store"] := by decide
+
+theorem C13_skeleton_list_inner_PushBack : skel_list_PushBack =
+    ["call l.lazyInit", "call l.root.prev.Load", "call l.insertValue", "return"] := by decide
+
+theorem C13_skeleton_list_inner_insert : skel_list_insert =
+    ["call e.prev.Store", "call at.next.Load", "call e.next.Store", "call e.prev.Load", "call e.prev.Load().next.Store",
+      "call e.next.Load", "call e.next.Load().prev.Store", "call e.list.Store", "return"] := by decide
+
+theorem C13_skeleton_list_inner_Front : skel_list_Front = ["if{", "return", "}if", "call l.root.next.Load", "return"] := by
+  decide
+
+theorem C13_skeleton_listElement_Next : skel_listElement_Next =
+    ["call l.next.Load", "call l.list.Load", "if{", "return", "}if", "return"] := by decide
+
+theorem C13_skeleton_type_list : skel_type_list = ["struct", "root listElement[T]", "len int"] := by decide
+
+theorem C13_skeleton_type_listElement : skel_type_listElement =
+    ["struct", "next atomic.Pointer[listElement[T]]", "prev atomic.Pointer[listElement[T]]",
+      "list atomic.Pointer[list[T]]", "value atomic.Pointer[T]"] := by decide
+
+/-! `Add` / `AddAll` / `Delete` / `DeleteAll` are `Apply` (the writer program, including its early return); the update
+id is a plain increment. -/
+theorem C13_skeleton_set_Add : skel_set_Add = ["call s.Apply", "return"] := by decide
+theorem C13_skeleton_set_AddAll : skel_set_AddAll = ["call elements.ToSlice", "call s.Apply", "return"] := by decide
+theorem C13_skeleton_set_Delete : skel_set_Delete = ["call s.Apply", "return"] := by decide
+theorem C13_skeleton_set_DeleteAll : skel_set_DeleteAll = ["call s.Apply", "return"] := by decide
+theorem C13_skeleton_uniqueID_Next : skel_uniqueID_Next = ["return"] := by decide
 
 /-! ### DerivedSet: inherited mutations are one more writer of the same protocol
 
@@ -465,7 +572,7 @@ theorem C13_skeleton_derivedSet_inheritMutations : skel_derivedSet_inheritMutati
 
 theorem C13_skeleton_derivedSet_applyInheritedMutations : skel_derivedSet_applyInheritedMutations =
     ["lock s.readableSet.mutex", "defer unlock s.readableSet.mutex", "call mutations.AddedElements().Range",
-      "call mutations.DeletedElements().Range", "helper Apply", "call s.uniqueUpdateID.Next",
+      "call mutations.DeletedElements().Range", "call s.value.Apply", "call s.uniqueUpdateID.Next",
       "call s.updateCallbacks.Values", "return"] := by decide
 
 /-! ### type facts: which mutex a selector resolves to, and the width of the update id
